@@ -114,3 +114,18 @@ add("C03", "exploration", "vh",
     "explicit enumeration of prior allocator histories and atom re-encodings (deviation-bounded) around the real run_program",
     "For every program of seven spaces the outcome in a fresh allocator is compared with the run after every prior history of length <=2|3 over a 9-event alphabet (junk atoms/pairs, earlier succeeding and failing runs, runs that validate BLS points and then fail, an earlier run of the subject itself, checkpoint+restore, a failed allocation), with the all-heap / all-view / mixed re-encodings and every single-atom deviation, and with every scripted accumulator-choice sequence of the pre-hard-fork + / - slow path (hook H4).",
     "Histories are sequences of public API calls on the same Allocator; runs that hit an allocator limit are excluded by the property's own statement. The accumulator script needs hook H4.")
+
+add("C06", "exploration", "vh",
+    "exhaustive differential exploration of four operators, num-bigint vs malachite backend",
+    "div, divmod and mod over every argument list of arity 0..=2|3 (plus improper terminators) and modpow over every (base, exponent, modulus) triple over a 30-50 value integer alphabet (boundary values in canonical, zero-padded and ff-padded form, eight zero bytes before 0x80, 257..2100-byte positive and negative operands, a pair) x 6 flag sets, called through ChiaDialect::op with and without MALACHITE at a high budget, the exact cost and cost-1: identical Ok(cost, result) or identical error string.",
+    "Differential between two backends of the same crate; modpow exponents are capped at 33 bytes for run time.")
+
+add("C09", "model_checking", "vh",
+    "exhaustive enumeration of opcodes x argument-size vectors against an independent u128 implementation of the published rule",
+    "Every unassigned 1- and 2-byte opcode, every opcode up to 4|6 bytes over a 10-byte alphabet, 16 core opcodes with every argument vector of arity <=2|3 over shared atoms of 0..1 MiB|64 MiB and a pair, and the overflow corner (every multiplier whose product wraps k times and lands below 2^32) are called through ChiaDialect::op under both cost models, three budgets and strict mode; the outcome must equal an independent implementation of the rule (nil + (multiplier+1)*base, or failure under the six listed conditions).",
+    "The reference rule is ~60 lines in props/c09.rs written from the comment block of op_unknown and docs/new-operator-checklist.md. Known finding: the pre-hard-fork model multiplies with wrapping_mul.")
+
+add("C25", "exploration", "vh",
+    "exhaustive exploration of programs x flag sets x budgets x allocation-fault points under catch_unwind, in an assertion-enabled build",
+    "Every program of 12 spaces x 5 flag sets (incl. every defined flag bit) x budgets {0,1,C-1,C,u64::MAX}; for the allocation-heavy spaces every heap limit and every atom/pair-cap headroom from 0 up to the first one that reproduces the unconstrained outcome (the k-th allocation fails, all k) with a monotone, peak-free oracle; every opcode called directly with every small argument list (proper and improper, inline and heap atoms); deep structures up to 10^5|10^6 in a child process with an 8 MiB stack. Oracle: no panic / abort / stack overflow, never InternalError, caps reported with the matching error.",
+    "The harness is built with overflow-checks and debug-assertions, so wrap-arounds and debug_assert! failures surface as panics. Programs beyond the scopes are not covered.")
